@@ -21,8 +21,8 @@ from pyvc.interp import NS, RaiseSig
 from pyvc.registry import Contract, resolve
 from pyvc.runner import Lemma, Bounded
 from pyvc.lib import c20_models as cm
-from pyvc.lib.c20_models import PArr, PMasked, Elem, fresh_parr, ext_le, ext_lt
-from .common import registry, implies, AND, OR, NOT
+from pyvc.lib.c20_models import PArr, PMasked, Elem, fresh_parr, ext_le, ext_lt, NumVal, fresh_numval
+from .common import registry, implies, AND, OR, NOT, frame_snapshot, frame_clauses
 
 LEVEL = "proof"
 # nonlinear real arithmetic over ground lemma instances: try `purify + nlsat` first (sound: purification only forgets facts);
@@ -75,7 +75,7 @@ def opt_real(ctx, name):
     """Optional[float] parameter: forks on None / a finite real."""
     if ctx.branch(ctx.fresh(name + "_is_none", "bool").t):
         return None
-    return ctx.fresh(name, "real")
+    return fresh_numval(ctx, name)
 
 
 def rt_(x):
@@ -371,15 +371,23 @@ C_STRETCH_INV = {n: stretch_inverse_contract(n) for n in STRETCH_NAMES}
 
 
 class Opt(Kind):
-    """Optional[float] whose None-ness is a symbolic flag (no path fork unless the code inspects it with `is None`)."""
+    """Optional number whose None-ness is a symbolic flag (no path fork unless the code inspects it with `is None`); the
+    number itself is of arbitrary KIND (Python number / NumPy integer scalar, see NumVal)."""
 
-    def __init__(self, none, val):
-        Kind.__init__(self, "optional-real")
-        self.none, self.val = none, val
+    def __init__(self, none, num):
+        Kind.__init__(self, "optional-number")
+        self.none, self.num = none, num
+
+    @property
+    def val(self):
+        return self.num.val
+
+    def sanitized(self):
+        return Opt(self.none, self.num.sanitized())
 
 
 def lazy_opt(ctx, name):
-    return Opt(ctx.fresh(name + "_is_none", "bool").t, ctx.fresh(name, "real").t)
+    return Opt(ctx.fresh(name + "_is_none", "bool").t, fresh_numval(ctx, name))
 
 
 def kind_is(interp, a, b):
@@ -406,6 +414,33 @@ def oval(x):
     return rt_(x)
 
 
+def knum(x):
+    """NumVal view of a limit-like value (None: exact 0, never used; lazy optional: its payload with the flags masked by not-None)"""
+    if x is None:
+        return NumVal(z3.RealVal(0))
+    if isinstance(x, Opt):
+        return NumVal(x.num.val, AND(NOT(x.none), x.num.np), AND(NOT(x.none), x.num.pyint))
+    return NumVal.of(x)
+
+
+def machine(a, b):
+    """is `a - b` / `a + b` of these two limit-like values computed in a fixed-width NumPy integer dtype (may wrap around)?"""
+    return NumVal.machine(knum(a), knum(b))
+
+
+PY, NPI = "[python-number-limits]", "[numpy-int-scalar-limits]"
+
+
+def by_kind(posts, m):
+    """A limit clause is stated once for limits whose difference is exact (Python numbers, floats, mixed with a float) and once
+    for limits that are NumPy fixed-width integer scalars (difference computed in that dtype)."""
+    out = []
+    for lab, t in posts:
+        out.append((lab + PY, implies(NOT(m), t)))
+        out.append((lab + NPI, implies(m, t)))
+    return out
+
+
 def data_arr(ctx, name="values", kinds=("f", "i")):
     dt = choose(ctx, name + "_dtype", list(kinds))
     return fresh_parr(ctx, name, dt)
@@ -420,14 +455,18 @@ def _fields_id(o):
     return tuple(sorted((k, id(v)) for k, v in o.fields.items()))
 
 
+READ_ONLY = {"values": "array(read-only-input)", "value": "array(read-only-input)", "data": "array(read-only-input)"}
+
+
 def frame_posts(s, arr_name="values"):
     arr = getattr(s, arr_name)
-    return [("argument-array-not-written", z3.BoolVal(arr.writes == s.old.writes)),
+    # the data handed to an interval / normaliser is read only (otherwise position i of the result no longer belongs to datum i)
+    return frame_clauses(s, s.old.frame, READ_ONLY) + [("argument-array-not-written", z3.BoolVal(arr.writes == s.old.writes)),
             ("interval-object-unchanged", z3.BoolVal(_fields_id(s.self) == s.old.self_fields))]
 
 
 def gl_snapshot(s):
-    return NS(writes=s.values.writes, self_fields=_fields_id(s.self))
+    return NS(frame=frame_snapshot(s, ["values"]), writes=s.values.writes, self_fields=_fields_id(s.self))
 
 
 def zabs(t):
@@ -470,13 +509,30 @@ def limits_raise(o, arr):
     return {ValueError: q_bad(o), IndexError: AND(NOT(q_bad(o)), NOT(g.has_finite))}
 
 
+def limits_kinded(ctx, o, arr):
+    """(vmin, vmax) as VALUES WITH KIND for call sites: data-derived limits are exact floats, user-supplied limits keep their
+    kind; explicit centred limits are vcenter -+ half_range computed in the operands' kind - where that is fixed-width integer
+    arithmetic nothing is promised about the value (see the [numpy-int-scalar-limits] clauses)."""
+    lo, hi = limits_spec(o, arr)
+    n = o.cls.__name__
+    if n == "ManualInterval":
+        a, b = knum(fld(o, "vmin")), knum(fld(o, "vmax"))
+        return NumVal(lo, a.np, a.pyint), NumVal(hi, b.np, b.pyint)
+    if n == "CenteredInterval":
+        m = z3.simplify(AND(NOT(onone(fld(o, "half_range"))), machine(fld(o, "vcenter"), fld(o, "half_range"))))
+        if z3.is_false(m):
+            return NumVal(lo), NumVal(hi)
+        return (NumVal(z3.If(m, ctx.fresh("wrapped_vmin", "real").t, lo), m, F_), NumVal(z3.If(m, ctx.fresh("wrapped_vmax", "real").t, hi), m, F_))
+    return NumVal(lo), NumVal(hi)
+
+
 def limits_result(ctx, s):
     o, arr = s.self, s.values
     if o.cls.__name__ == "QuantileInterval":
         for f in s.interp.reg.c20_quantile_facts(arr.data, [rt_(fld(o, "lower_quantile")), rt_(fld(o, "upper_quantile"))]):
             ctx.assume(f)
-    lo, hi = limits_spec(o, arr)
-    return lim_record(ctx, Sym(lo), Sym(hi))
+    lo, hi = limits_kinded(ctx, o, arr)
+    return lim_record(ctx, lo, hi)
 
 
 def interval_obj(ctx, name, lazy=False, tag=""):
@@ -484,7 +540,7 @@ def interval_obj(ctx, name, lazy=False, tag=""):
     if name == "ManualInterval":
         f = dict(vmin=opt("vmin"), vmax=opt("vmax"))
     elif name == "CenteredInterval":
-        f = dict(vcenter=ctx.fresh(tag + "vcenter", "real"), half_range=opt("half_range"))
+        f = dict(vcenter=fresh_numval(ctx, tag + "vcenter"), half_range=opt("half_range"))
     else:
         f = dict(lower_quantile=ctx.fresh(tag + "lower_quantile", "real"), upper_quantile=ctx.fresh(tag + "upper_quantile", "real"))
     return Obj(K(name), f)
@@ -496,7 +552,7 @@ def interval_obj(ctx, name, lazy=False, tag=""):
 C_ABS_LIMITS = Contract(
     f"{CN}:BaseInterval.get_limits", setup=lambda ctx: NS(self=Obj(K("BaseInterval"), {}), values=data_arr(ctx)),
     ensures=lambda s: [],
-    result=lambda ctx, s: lim_record(ctx, ctx.fresh("vmin", "real"), ctx.fresh("vmax", "real")),
+    result=lambda ctx, s: lim_record(ctx, fresh_numval(ctx, "vmin"), fresh_numval(ctx, "vmax")),
     note="abstract method: specification only (body raises NotImplementedError)",
 )
 
@@ -516,10 +572,11 @@ def gl_ensures(s):
     elif n == "CenteredInterval":
         c = rt_(fld(o, "vcenter"))
         data_derived = onone(fld(o, "half_range"))
-        out += [("symmetric-about-vcenter", lo + hi == 2 * c),
-                ("given-half_range:vcenter-+half_range", implies(NOT(data_derived), AND(lo == c - oval(fld(o, "half_range")), hi == c + oval(fld(o, "half_range"))))),
-                ("data-derived:tight(touches-min-or-max)", implies(data_derived, OR(lo == g.gmin, hi == g.gmax))),
-                ("limits=spec", AND(lo == slo, hi == shi))]
+        m = AND(NOT(data_derived), machine(fld(o, "vcenter"), fld(o, "half_range")))
+        out += by_kind([("symmetric-about-vcenter", lo + hi == 2 * c),
+                        ("given-half_range:vcenter-+half_range", implies(NOT(data_derived), AND(lo == c - oval(fld(o, "half_range")), hi == c + oval(fld(o, "half_range"))))),
+                        ("limits=spec", AND(lo == slo, hi == shi))], m)
+        out += [("data-derived:tight(touches-min-or-max)", implies(data_derived, OR(lo == g.gmin, hi == g.gmax)))]
     else:
         lq, uq = rt_(fld(o, "lower_quantile")), rt_(fld(o, "upper_quantile"))
         data_derived = F_
@@ -532,6 +589,12 @@ def gl_ensures(s):
                 ("two-distinct-finite-values=>vmin<vmax", implies(AND(data_derived, g.distinct2), lo < hi))]
         for i, e in enumerate(arr.elems):
             out.append((f"finite-data-inside-data-derived-limits[{i}]", implies(AND(data_derived, e.finite()), AND(lo <= e.val, e.val <= hi))))
+    # value kind of the result, as call sites rely on it (limits_kinded): limits derived from the data are exact floats, a
+    # user-supplied limit is handed back as it is
+    klo, khi = limits_kinded(s.ctx, o, arr)
+    rlo, rhi = NumVal.of(s.result[0]), NumVal.of(s.result[1])
+    out += [("result-kind:data-derived-limits-are-exact-floats;user-limits-keep-their-kind",
+             AND(rlo.np == klo.np, rhi.np == khi.np, implies(NOT(klo.np), rlo.pyint == klo.pyint), implies(NOT(khi.np), rhi.pyint == khi.pyint)))]
     return out + frame_posts(s)
 
 
@@ -555,7 +618,7 @@ def bi_setup(ctx):
 
 
 def bi_snapshot(s):
-    return NS(elems=s.values.snapshot(), writes=s.values.writes, self_fields=_fields_id(s.self))
+    return NS(frame=frame_snapshot(s, ["values"]), elems=s.values.snapshot(), writes=s.values.writes, self_fields=_fields_id(s.self))
 
 
 def interval_posts(old, new, lo, hi):
@@ -594,7 +657,7 @@ def bi_ensures(s):
         ("result-is-a-new-float-array", z3.BoolVal(res is not s.values and res.dt == "f")),
         ("argument-array-not-written", z3.BoolVal(s.values.writes == s.old.writes)),
         ("interval-object-unchanged", z3.BoolVal(_fields_id(s.self) == s.old.self_fields)),
-    ]
+    ] + frame_clauses(s, s.old.frame, READ_ONLY)
 
 
 def bi_result(ctx, s):
@@ -626,7 +689,7 @@ def binv_ensures(s):
     out.append(("non-decreasing", implies(AND(a1.finite(), a2.finite(), lo <= hi, a1.val <= a2.val), b1.val <= b2.val)))
     return out + [("result-is-a-new-array", z3.BoolVal(res is not s.values)),
                   ("argument-array-not-written", z3.BoolVal(s.values.writes == s.old.writes)),
-                  ("interval-object-unchanged", z3.BoolVal(_fields_id(s.self) == s.old.self_fields))]
+                  ("interval-object-unchanged", z3.BoolVal(_fields_id(s.self) == s.old.self_fields))] + frame_clauses(s, s.old.frame, READ_ONLY)
 
 
 C_BI_INV = Contract(f"{CN}:BaseInterval.inverse", setup=binv_setup, ensures=binv_ensures, snapshot=bi_snapshot, result=bi_result,
@@ -657,7 +720,7 @@ def norm_obj(ctx, interval_names=INTERVALS):
 def cn_snapshot(s):
     o = s.self
     arr = s.__dict__.get("value", s.__dict__.get("data"))
-    return NS(elems=arr.snapshot() if arr is not None else (), writes=arr.writes if arr is not None else 0, fields=_fields_id(o),
+    return NS(frame=frame_snapshot(s, [k for k in ("value", "data") if isinstance(s.__dict__.get(k), PArr)]), elems=arr.snapshot() if arr is not None else (), writes=arr.writes if arr is not None else 0, fields=_fields_id(o),
               interval=o.fields.get("interval"), stretch=o.fields.get("stretch"),
               interval_fields=_fields_id(o.fields["interval"]) if "interval" in o.fields else None,
               stretch_fields=_fields_id(o.fields["stretch"]) if "stretch" in o.fields else None)
@@ -697,7 +760,7 @@ def call_ensures(s):
         ("strictly-increasing-between-distinct-limits", implies(AND(a1.finite(), a2.finite(), lo < hi, lo <= a1.val, a1.val < a2.val, a2.val <= hi), b1.val < b2.val)),
         ("limits-are-those-of-the-interval", AND(*[x == y for x, y in zip((lo, hi), limits_spec(s.old.interval, s.value))])),
         ("composition:masked(stretch(interval(value)))", z3.BoolVal(_composition_ok(s, res))),
-        ("argument-array-not-written", z3.BoolVal(s.value.writes == s.old.writes)),
+        ("argument-array-not-written", z3.BoolVal(s.value.writes == s.old.writes)), *frame_clauses(s, s.old.frame, READ_ONLY),
         ("normalization-object-unchanged", z3.BoolVal(_fields_id(s.self) == s.old.fields and _fields_id(fld(s.self, "interval")) == s.old.interval_fields
                                                         and _fields_id(fld(s.self, "stretch")) == s.old.stretch_fields)),
     ]
@@ -759,7 +822,7 @@ def cinv_ensures(s):
                 (f"[0,1]->[vmin,vmax][{i}]", implies(AND(in01(a), lo <= hi), AND(b.finite(), lo <= b.val, b.val <= hi)))]
     a1, a2, b1, b2 = s.old.elems[0], s.old.elems[1], res.elems[0], res.elems[1]
     out += [("non-decreasing-on-[0,1]", implies(AND(in01(a1), in01(a2), lo <= hi, a1.val <= a2.val), b1.val <= b2.val)),
-            ("argument-array-not-written", z3.BoolVal(s.value.writes == s.old.writes)),
+            ("argument-array-not-written", z3.BoolVal(s.value.writes == s.old.writes)), *frame_clauses(s, s.old.frame, READ_ONLY), *frame_clauses(s, s.old.frame, READ_ONLY),
             ("normalization-object-unchanged", z3.BoolVal(_fields_id(s.self) == s.old.fields)),
             ("composition:interval.inverse(stretch.inverse(value))", z3.BoolVal(_inv_composition_ok(s, res)))]
     return out
@@ -811,7 +874,7 @@ def sl_ensures(s):
         ("returns-None", z3.BoolVal(s.result is None)),
         ("stretch-untouched", z3.BoolVal(fld(o, "stretch") is s.old.stretch and _fields_id(fld(o, "stretch")) == s.old.stretch_fields)),
         ("previous-interval-object-untouched", z3.BoolVal(_fields_id(s.old.interval) == s.old.interval_fields)),
-        ("data-not-written", z3.BoolVal(s.data.writes == s.old.writes)),
+        ("data-not-written", z3.BoolVal(s.data.writes == s.old.writes)), *frame_clauses(s, s.old.frame, READ_ONLY),
     ]
 
 
@@ -917,13 +980,15 @@ def init_ensures(s):
                 ("data-given:frozen-limits=limits-of-the-configured-interval-on-the-data(bool:0,1)",
                  AND(NOT(onone(fld(iv, "vmin"))), NOT(onone(fld(iv, "vmax"))), oval(fld(iv, "vmin")) == lo, oval(fld(iv, "vmax")) == hi)),
                 ("data-given:norm.vmin/vmax=frozen-limits", AND(NOT(onone(fld(o, "_vmin"))), NOT(onone(fld(o, "_vmax"))), oval(fld(o, "_vmin")) == lo, oval(fld(o, "_vmax")) == hi)),
-                ("data-not-written", z3.BoolVal(KW(s)["data"].writes == 0))]
+                ("data-not-written", z3.BoolVal(KW(s)["data"].writes == 0)),
+                ("frame:the-caller's-array(read-only-input)-is-not-written", z3.BoolVal(KW(s)["data"]._pyvc_signature() == s.old.data_sig))]
     out.append(("clip-disabled-in-matplotlib-base", z3.BoolVal(o.fields.get("_clip") is False)))
     return out
 
 
 C_INIT = Contract(
     f"{CN}:CustomNormalization.__init__", setup=init_setup, ensures=init_ensures,
+    snapshot=lambda s: NS(data_sig=KW(s)["data"]._pyvc_signature() if KW(s)["data"] is not None else None),
     raises={ValueError: init_raise(ValueError), IndexError: init_raise(IndexError)},
 )
 
@@ -1212,6 +1277,7 @@ def rt_interval(inp):
 DATASETS = {
     "ramp": [0.0, 1.0, 2.0, 3.0, 4.0, 5.0, 6.0, 7.0, 8.0, 9.0],
     "two-values": [3.0, 3.0, 3.0, 5.0],
+    "unsorted": [9.0, 2.0, 7.0, 0.0, 5.0, 3.0, 8.0, 1.0, 6.0, 4.0, 12.0, 10.0],
     "negatives": [-7.5, -1.0, 0.0, 0.25, 2.0, 11.0],
     "nan-inf": ["nan", -3.0, "-inf", 0.0, 0.5, "nan", 1.0, "inf", 42.0],
     "mostly-equal": [0.0] * 60 + [1.0],
@@ -1575,7 +1641,7 @@ for _n in STRETCH_NAMES:
     for _c in (C_STRETCH_CALL[_n], C_STRETCH_INV[_n]):
         _c.rt, _c.rt_family, _c.concretize = rt_stretch, (lambda _n=_n: (i for i in fam_stretch() if i["cls"] == _n)), conc_stretch(_n)
 for _n in INTERVALS:
-    C_LIMITS[_n].rt, C_LIMITS[_n].rt_family, C_LIMITS[_n].concretize = rt_interval, (lambda _n=_n: (i for i in fam_interval() if i["cls"] == _n and np.dtype(i["dtype"]).kind == "f")), conc_interval(_n)
+    C_LIMITS[_n].rt, C_LIMITS[_n].rt_family, C_LIMITS[_n].concretize = rt_interval, (lambda _n=_n: (i for i in fam_interval() if i["cls"] == _n and (np.dtype(i["dtype"]).kind == "f" or i["dtype"] == "int64"))), conc_interval(_n)
 _ffam = lambda: (i for i in fam_interval() if np.dtype(i["dtype"]).kind == "f" or i["dtype"] == "int64")  # int64: no wrap-around on these data
 C_BI_CALL.rt, C_BI_CALL.rt_family, C_BI_CALL.concretize = rt_interval, _ffam, conc_base_interval
 C_BI_INV.rt, C_BI_INV.rt_family = rt_interval, _ffam
